@@ -23,14 +23,14 @@ enum { C_STABLE = 0, C_THREADS, C_MWMSA, C_OVERSAMPLE, C_ELEM, C_DEFAULT_THREADS
 struct Pod { int key; int idx; };
 
 void generate(Rng& r, Workload& w, int tier) {
-    int64_t threads = r.chance(1, 12) ? 6 : r.range(0, 5);   // 0..5 -> 1..6 threads, 6 -> 16
+    int64_t threads = r.chance(1, 8) ? r.range(6, 8) : r.range(0, 5);   // 0..5 -> 1..6 threads, 6 -> 16, 7 -> 24, 8 -> 32
     w.cfg = {int64_t(r.below(2)), threads, int64_t(r.below(2)), r.range(0, 3), int64_t(r.below(2)),
              r.chance(1, 8) ? 1 : 0, 0};
     int nmax = tier ? 96 : 64;
     int n;
     uint64_t k = r.below(10);
     if (k < 2) n = int(r.range(0, 3));
-    else if (k < 4) n = int(r.range(0, (threads >= 6 ? 16 : threads + 1) + 1));        // n < threads and around it
+    else if (k < 4) n = int(r.range(0, (threads >= 6 ? 33 : threads + 1) + 1));        // n < threads and around it
     else n = int(r.range(0, nmax));
     int shape = int(r.below(6));
     int universe = shape == 0 ? 1 : shape == 1 ? int(r.range(2, 4)) : shape == 2 ? 1000 : int(r.range(1, 8));
@@ -50,8 +50,8 @@ template <> int keyof<sim::Tracked>(const sim::Tracked& p) { return p.k(); }
 template <class T>
 void run(const Workload& w, Result& res) {
     const bool stable = sim::modn(sim::cfg_at(w, C_STABLE), 2) == 1;
-    int64_t tv = sim::modn(sim::cfg_at(w, C_THREADS), 7);
-    const size_t threads = size_t(tv >= 6 ? 16 : 1 + tv);
+    int64_t tv = sim::modn(sim::cfg_at(w, C_THREADS), 9);
+    const size_t threads = size_t(tv == 8 ? 32 : tv == 7 ? 24 : tv == 6 ? 16 : 1 + tv);
     const bool sampling = sim::modn(sim::cfg_at(w, C_MWMSA), 2) == 1;
     const size_t oversample = size_t(1 + sim::modn(sim::cfg_at(w, C_OVERSAMPLE), 4));
     const bool default_threads = sim::modn(sim::cfg_at(w, C_DEFAULT_THREADS), 2) == 1;
@@ -106,6 +106,7 @@ void run(const Workload& w, Result& res) {
                                                      " temporary element copies still alive when the sort returned");
         if (n >= 2 && threads >= 2) res.probe("multi_thread_sort");
         if (n > 0 && n < threads) res.probe("n_less_than_threads");
+        if (threads > 16 && n > 16) res.probe("more_than_16_pieces");
         if (n % (threads ? threads : 1) != 0) res.probe("n_not_divisible");
         if (sampling) res.probe("sampling"); else res.probe("exact");
         if (stable) res.probe("stable");
@@ -120,7 +121,7 @@ void execute(const Workload& w, Result& res) {
     else run<Pod>(w, res);
 }
 
-const sim::HarnessDef def = {"C06", true, 120, generate, execute, nullptr};
+const sim::HarnessDef def = {"C06", true, 60, generate, execute, nullptr};
 
 } // namespace
 
